@@ -322,6 +322,34 @@ def r3_reset_complete(ctx, rid: str = "C15.R3") -> None:
             r.ok(rid, q, "nested pipeline is run through ProcessingPipeline.apply (same reset)", f.loc)
         else:
             r.violation(rid, q, "self._nested_pipeline.apply(rule)", "nested pipeline no longer goes through ProcessingPipeline.apply", f.loc)
+    # every reader of a nested pipeline's per-rule field sees this rule's value: the read is dominated by a run through
+    # apply() (which resets) or by a fresh store to that field in the same function
+    n_reads = 0
+    for q, fi in sorted(prog.funcs.items()):
+        if not fi.module.name.startswith("sigma.processing"):
+            continue
+        reads = [n for n in walk_no_nested(fi.node) if isinstance(n, ast.Attribute) and isinstance(n.ctx, ast.Load) and n.attr in per_rule
+                 and unparse(n.value) == "self._nested_pipeline"]
+        if not reads:
+            continue
+        fcfg = cfg_of(fi)
+        for rd in reads:
+            n_reads += 1
+            loc = f"{fi.module.relpath}:{rd.lineno}"
+            resets = []
+            for st in walk_no_nested(fi.node):
+                if isinstance(st, ast.Expr) and isinstance(st.value, ast.Call) and call_name(st.value) == "self._nested_pipeline.apply":
+                    resets += fcfg.nodes_of(st)
+                if isinstance(st, ast.Assign) and any(isinstance(t, ast.Attribute) and t.attr == rd.attr and unparse(t.value) == "self._nested_pipeline" for t in st.targets) \
+                        and _is_fresh(prog, fi, st.value):
+                    resets += fcfg.nodes_of(st)
+            rd_nodes = fcfg.node_of_expr(rd, prog.parent)
+            if resets and rd_nodes and all(fcfg.must_pass(x, resets) for x in rd_nodes):
+                r.ok(rid, q, f"read of self._nested_pipeline.{rd.attr} follows a reset (apply() or a fresh store) on every path", loc)
+            else:
+                r.violation(rid, q, short(prog.enclosing_stmt(rd), 110),
+                            f"self._nested_pipeline.{rd.attr} is read although the nested pipeline was not reset for this rule (it is never run through apply()): identifiers recorded while post-processing earlier rules' queries are merged into the enclosing pipeline again, so a rule's output depends on the rules converted before it", loc)
+    r.analysed["C15.nested_pipeline_state_reads"] = n_reads
     # nobody else resets/aliases the per-rule fields to shared objects
     for q, fi in sorted(prog.funcs.items()):
         if not fi.module.name.startswith("sigma."):
@@ -347,8 +375,8 @@ def _is_fresh(prog, fi: FuncInfo, v: Optional[ast.AST]) -> bool:
     if isinstance(v, ast.Call):
         d = call_name(v)
         last = d.split(".")[-1]
-        if last in ("list", "dict", "set") and not v.args and not v.keywords:
-            return True
+        if last in ("list", "dict", "set") and not v.keywords and (not v.args or (len(v.args) == 1 and _is_fresh(prog, fi, v.args[0]))):
+            return True   # set(), set([]), dict({}) …
         if last == "defaultdict" and all(isinstance(a, ast.Name) for a in v.args) and len(v.args) <= 1:
             return True
         q = prog.resolve_expr(fi.module, v.func)
